@@ -221,6 +221,8 @@ func indexIngest(repo Repo, index *types.Index, conf config.Config, locked bool)
 				// remove the fallback tag, the remaining untagged entry is then updated with the referrer annotation
 				index.RmDesc(desc)
 				index.AddDesc(newDesc)
+				// track the response so referrers found under the fallback tag of another subject are merged with it
+				referrerResponse[refSubj.String()] = newDesc
 				mod = true
 			}
 			// if the response cannot be quickly converted, save for later
